@@ -233,6 +233,17 @@ let handle (line : Stdlib.String.t) : Stdlib.String.t =
        with Failure m -> "BAD-REQUEST " ^ m)
   | "LEXCALLS" :: mb :: flags :: rest ->
       string_of_int (int_of_nat (lex_handle_calls (mb = "1") (nat_of_int (int_of_string flags)) (ints_of rest)))
+  | "WALK" :: which :: dialect :: rest ->
+      (try
+         let so = function None -> "-" | Some s -> if s = [] then "e" else cps s in
+         (match walk_text (coq_of_string which) (dialect_of dialect) (ints_of rest) with
+          | Err e -> "PARSEERR " ^ err_name e
+          | Ok (Err e) -> "ERR " ^ err_name e
+          | Ok (Ok (WTables l)) -> "OK T[" ^ String.concat "," (List.map (fun (s, t) -> so s ^ ":" ^ so (Some t)) l) ^ "]"
+          | Ok (Ok (WCols l)) ->
+              "OK C[" ^ String.concat "," (List.map (fun q -> so q.q_table ^ ":" ^ so q.q_column ^ ":" ^
+                                              (match q.q_idx with None -> "-" | Some z -> z_to_string z)) l) ^ "]")
+       with Failure m -> "BAD-REQUEST " ^ m)
   | "CURSOR" :: rest ->
       (try
          let (toks, rest1) = parse_toks rest in
